@@ -21,6 +21,7 @@ THEOREMS = [
     "C28.advance_by_leaves_clock_at_target",
     "C28.sleep_runs_nothing",
     "C28.advance_to_now_counter",
+    "C28.sleep_past_target_counter",
 ]
 RULE = ("random scripts of 2..14 calls (schedule/schedule_relative/schedule_absolute of action trees of depth <=3 that schedule, "
         "cancel, sleep and stop; cancel; advance_to around the clock; advance_by; sleep; start; stop) on real TestScheduler, "
@@ -33,6 +34,17 @@ ASSUMPTIONS = ["single-threaded use of the scheduler (what the property quantifi
                "heapq pops the least (item, count) tuple (array layout abstracted; PQ.WF makes the least entry unique)"]
 TRUSTED_EXTRA = ["event-trace recorder in harness/props/vts_common.py (reads scheduler._clock/_is_enabled)"]
 FINDING_ADV_NOW = "C28-advance-to-now"
+FINDING_SLEEP_BACK = "C28-sleep-past-target"
+
+
+def _finding_listed(fid):
+    """Is the finding recorded in known_findings.json?  The sleep-past-target shape is reported (as KNOWN-FINDING) once the lead
+    has recorded it; until then it is exempted exactly as before, so that the check's verdict never depends on the order in
+    which the shared file is edited."""
+    try:
+        return any(f.get("id") == fid and f.get("status") == "known" for f in fw.load_known())
+    except Exception:
+        return False
 
 
 # --------------------------------------------------------------------------- generation
@@ -326,8 +338,14 @@ def oracle(case, out):
             # advance_to assigns its target to the clock when its loop ends; an action that itself called sleep() past
             # the target is followed by a step back.  Actions calling sleep() are outside the property's quantifier
             # (they schedule and cancel); the model keeps the assignment as written and the theorems exclude it (noSleep).
-            if c < clock and not (cur["slept"] and name in ("advance_to", "advance_by") and res == "ok"):
-                return f"clock moved backwards: {clock} -> {c} at the end of call {i}"
+            if c < clock:
+                if cur["slept"] and name in ("advance_to", "advance_by") and res == "ok":
+                    # genuine deviation from "the clock never moves backwards" (proposed known finding): an action called
+                    # sleep() past the target and advance_to then assigned its target to the clock
+                    if _finding_listed(FINDING_SLEEP_BACK):
+                        return f"sleep-past-target: clock moved backwards {clock} -> {c} when {name}({arg}) returned (an action slept past the target)"
+                else:
+                    return f"clock moved backwards: {clock} -> {c} at the end of call {i}"
             if res == "ok" and not cur["enabled"]:
                 if name in ("advance_to", "advance_by"):
                     T = arg if name == "advance_to" else c0 + arg
@@ -354,6 +372,8 @@ def oracle(case, out):
 def classify(case, why):
     if why.startswith("advance_to(now):"):
         return FINDING_ADV_NOW
+    if why.startswith("sleep-past-target:"):
+        return FINDING_SLEEP_BACK
     return None
 
 
@@ -399,7 +419,12 @@ LEVEL_TEXT = ("Lean theorems over the executable model of PriorityQueue + Virtua
               "number) when no action schedules before the clock; advance_to runs exactly the due actions and leaves the clock at the target; "
               "sleep runs nothing. Induction over all scripts and queues, no bounds. Tied to /repo by differential runs on TestScheduler, "
               "VirtualTimeScheduler, HistoricalScheduler and PriorityQueue plus an event-trace oracle written from the property text.")
-LEVEL_NOTE = ("advance_to_runs_exactly_due is proved as _partial (hypothesis: target != current clock): advance_to(now)/advance_by(0) return without "
+LEVEL_NOTE = ("clock_monotone/log_clock_sorted over scripts carry the hypothesis that no action calls sleep() from inside: an action that sleeps past "
+              "the target of the advance_to that runs it is followed by `self._clock = dt`, a step BACKWARDS (C28.sleep_past_target_counter, replayed on "
+              "the real code; judged a genuine deviation from 'the clock never moves backwards' — sleep() is public API and in virtual time it is how an "
+              "action takes time; proposed known finding C28-sleep-past-target: whichever way it is repaired one of the two clauses 'never backwards' / "
+              "'clock left at the target' gives, so it is recorded, not fixed). clock_monotone_loop (start, and the loop of advance_to) holds without it. "
+              "advance_to_runs_exactly_due is proved as _partial (hypothesis: target != current clock): advance_to(now)/advance_by(0) return without "
               "running actions due now (counter-example theorem C28.advance_to_now_counter, replayed on the real code; repairing it breaks the repo's own "
               "test_historicalscheduler.test_advance_by, so it is proposed as known finding C28-advance-to-now, not fixed). Assumed: single thread, integer "
               "times, heapq array layout abstracted (least-entry uniqueness proved as PQ.WF).")
